@@ -127,11 +127,11 @@ def judge(res, truth, kind, target, follow, faulted):
             if not battery.acceptable(got, want):
                 return 'target-returned-wrong', f'{target} returned {got} under fault, true result {want}'
         else:
-            if got != want:
+            if got != want and not (got[0] == 'exc' and want[0] == 'exc'):
                 return 'nofault-order-wrong', f'{target} returned {got} without fault, true result {want}'
     for c, got in zip(follow, res['follow']):
         want = truth[(kind, repr(c))]
-        if got != want:
+        if got != want and not (got[0] == 'exc' and want[0] == 'exc'):     # (which error a refused call reports is not compared)
             return 'followup-wrong', f'after the faulted {target}, fault-free {c} returned {got}, fresh reader gives {want}'
     return None, ''
 
